@@ -369,6 +369,16 @@ func evalServer(c Case) (vev.Outcome, error) {
 				return dev("server|query|address-data|"+d, "backend received data request %s, document denotes %s: %q", mustJSON(gm.Data), mustJSON(c.Query.Data), body), nil
 			}
 		}
+		if c.Query.Limit != nil {
+			if u, err := strconv.ParseUint(*c.Query.Limit, 10, 64); err == nil && u > 1<<62 {
+				// a limit beyond what an int holds (after C13-s15) denotes "more than any address book holds": the
+				// backend must still be asked, with a limit that large or with none
+				if got.Limit > 0 && got.Limit < 1<<62 {
+					return dev("server|query|limit", "backend received limit %d, document says %v: %q", got.Limit, *c.Query.Limit, body), nil
+				}
+				return vev.Outcome{}, nil
+			}
+		}
 		if limit > 0 && got.Limit != limit || limit < 0 && got.Limit > 0 {
 			return dev("server|query|limit", "backend received limit %d, document says %v: %q", got.Limit, c.Query.Limit, body), nil
 		}
@@ -565,7 +575,7 @@ func TestEnumerations(t *testing.T) {
 			}
 		}
 	}
-	for _, lim := range []string{"0", "1", "10", "-1", "abc", "", "1.5", "99999999999999999999999", " 3 ", "+2", "2147483648", "4294967295", "4294967296", "4294967303", "9223372036854775807"} {
+	for _, lim := range []string{"0", "1", "10", "-1", "abc", "", "1.5", "99999999999999999999999", " 3 ", "+2", "2147483648", "4294967295", "4294967296", "4294967303", "9223372036854775807", "9223372036854775808", "18446744073709551615", "18446744073709551616"} {
 		lim := lim
 		c := Case{Dir: "server", Kind: "query", Path: "/u/contacts/b/", Query: vdav.CardQuery{Data: vdav.AddrData{Present: true, AllProp: true}, Limit: &lim}}
 		if _, err := strconv.ParseUint(lim, 10, 64); err != nil {
@@ -576,7 +586,7 @@ func TestEnumerations(t *testing.T) {
 		}
 		run(t, nil, c, "enum/limit")
 	}
-	rec.ExhaustiveSub("wire side: 7 outer test x 7 inner test x 9 match-type x 7 negate-condition attribute values (valid and invalid) and 15 nresults texts")
+	rec.ExhaustiveSub("wire side: 7 outer test x 7 inner test x 9 match-type x 7 negate-condition attribute values (valid and invalid) and 18 nresults texts")
 }
 
 func TestClientToWire(t *testing.T) {
